@@ -85,6 +85,28 @@ pub broadcast axiom fn ax_fp_random_mutref<R: RngCore>(rng: &mut R, r: Fp)
     ensures (#[trigger] fp_random_post::<&mut R>(rng, r) && det_rng::<R>())
         ==> (r, *final(rng)) == fp_draw::<R>(*old(rng));
 
-pub broadcast group group_field { ax_fv_range, ax_fp_random_mutref }
+// ---- ring operations of the field as seen by the glue code (T-field).  add/sub/neg are discharged on the
+// Montgomery residues by the complete Kani harnesses k_fp_add / k_fp_sub / k_fp_neg; multiplication is ASSUMED.
+pub open spec fn f_add(a: int, b: int) -> int { (a + b) % P() }
+pub open spec fn f_mul(a: int, b: int) -> int { (a * b) % P() }
+pub assume_specification[<Fp as core::ops::Mul<Fp>>::mul](a: Fp, b: Fp) -> (r: Fp)
+    ensures fv(r) == f_mul(fv(a), fv(b));
+pub assume_specification<'b>[<Fp as core::ops::Add<&'b Fp>>::add](a: Fp, b: &Fp) -> (r: Fp)
+    ensures fv(r) == f_add(fv(a), fv(*b));
+pub assume_specification[<Fp as core::ops::Add<Fp>>::add](a: Fp, b: Fp) -> (r: Fp)
+    ensures fv(r) == f_add(fv(a), fv(b));
+pub assume_specification[<Fp as core::ops::AddAssign<Fp>>::add_assign](a: &mut Fp, b: Fp)
+    ensures fv(*final(a)) == f_add(fv(*old(a)), fv(b));
+pub broadcast axiom fn ax_req_fp_mul(a: Fp, b: Fp) ensures #[trigger] <Fp as vstd::std_specs::ops::MulSpec<Fp>>::mul_req(a, b);
+pub broadcast axiom fn ax_req_fp_add_ref<'b>(a: Fp, b: &'b Fp) ensures #[trigger] <Fp as vstd::std_specs::ops::AddSpec<&'b Fp>>::add_req(a, b);
+pub broadcast axiom fn ax_req_fp_add(a: Fp, b: Fp) ensures #[trigger] <Fp as vstd::std_specs::ops::AddSpec<Fp>>::add_req(a, b);
+
+/// N9 wrappers: the body IS the original expression (an associated const of the external type)
+#[verifier::external_body]
+pub fn v_fp_zero() -> (r: Fp) ensures fv(r) == 0 { Fp::ZERO }
+#[verifier::external_body]
+pub fn v_fp_one() -> (r: Fp) ensures fv(r) == 1 { Fp::ONE }
+
+pub broadcast group group_field { ax_fv_range, ax_fp_random_mutref, ax_req_fp_mul, ax_req_fp_add_ref, ax_req_fp_add }
 
 } // mod th_field
